@@ -365,7 +365,7 @@ Section Proofs.
   Proof.
     intros [Hv [Hc Hl]]. unfold add_interval. destruct (h_ft h) as [[froms tos]|] eqn:Eft.
     - (* later interval call *)
-      set (cell_map := flat_map _ _). set (new_fts := unmatched cell_map fts).
+      set (cell_map := cell_map_of froms tos fts tol). set (new_fts := unmatched cell_map fts).
       split; [|split].
       + intros dv i d H Hi. simpl in H |- *. apply nth_error_app_keep. apply (Hv dv i d H Hi).
       + unfold cells_join in *. rewrite Eft in Hc. simpl. destruct Hc as [Lf [Lt Hj]].
@@ -693,6 +693,144 @@ Section Proofs.
     apply attached_hrun; [apply hstep_inv; [exact Hinv|exact Hne]|exact Hlater|].
     unfold hstep, hcall. simpl. apply attached_sort; [apply add_depth_inv; [apply inv_inv_weak; exact Hinv|exact Hne]|].
     apply add_depth_attached with (j := j); try assumption. apply inv_inv_weak. exact Hinv.
+  Qed.
+  (* ---------------- interval values stay attached ---------------- *)
+  (* value v of interval child [name] is attached to a cell whose (FROM, TO) is within tol of (f, t) *)
+  Definition cattached (h : hole) (name : nat) (f t v tol : Q) : Prop :=
+    exists c froms tos vals f' t', h_ft h = Some (froms, tos) /\ nth_error froms c = Some f' /\ nth_error tos c = Some t'
+      /\ ft_close f t f' t' tol = true /\ In (name, vals) (h_cdata h) /\ onth vals c = Some v.
+
+  Lemma cattached_sort h name f t v tol : cattached h name f t v tol -> cattached (sort_depths h) name f t v tol.
+  Proof.
+    intros [c [froms [tos [vals [f' [t' H]]]]]]. unfold sort_depths.
+    destruct (h_depth h) as [dv|]; [|exists c, froms, tos, vals, f', t'; exact H].
+    destruct (nondecreasing _); exists c, froms, tos, vals, f', t'; exact H.
+  Qed.
+
+  Lemma cattached_add_depth h k depth values tol' name f t v tol :
+    cattached h name f t v tol -> cattached (add_depth pos h k depth values tol') name f t v tol.
+  Proof.
+    intros [c [froms [tos [vals [f' [t' H]]]]]]. unfold add_depth.
+    destruct (h_depth h); exists c, froms, tos, vals, f', t'; exact H.
+  Qed.
+
+  Lemma cattached_add_interval h k fts values tol' name f t v tol :
+    cattached h name f t v tol -> cattached (add_interval pos h k fts values tol') name f t v tol.
+  Proof.
+    intros [c [froms [tos [vals [f' [t' [Hft [Hf [Ht [Hcl [Hin Hv]]]]]]]]]]].
+    unfold add_interval. rewrite Hft.
+    exists c. eexists. eexists. eexists. exists f', t'. simpl. split; [reflexivity|].
+    split; [apply nth_error_app_keep; exact Hf|]. split; [apply nth_error_app_keep; exact Ht|]. split; [exact Hcl|].
+    split; [apply in_or_app; left; apply pad_all_In; exact Hin|]. rewrite onth_pad. exact Hv.
+  Qed.
+
+  Lemma cattached_happly h op name f t v tol : cattached h name f t v tol -> cattached (happly pos h op) name f t v tol.
+  Proof.
+    intros Ha. destruct op; simpl; [apply cattached_add_depth|apply cattached_add_interval]; exact Ha.
+  Qed.
+
+  Lemma cattached_fold : forall subs h name f t v tol,
+    cattached h name f t v tol -> cattached (fold_left (happly pos) subs h) name f t v tol.
+  Proof.
+    induction subs as [|op r IH]; intros h name f t v tol Ha; [exact Ha|]. simpl. apply IH. apply cattached_happly. exact Ha.
+  Qed.
+
+  Lemma cattached_hcall h subs name f t v tol : cattached h name f t v tol -> cattached (hcall pos h subs) name f t v tol.
+  Proof. intros Ha. unfold hcall. apply cattached_sort. apply cattached_fold. exact Ha. Qed.
+
+  Lemma cattached_hrunc : forall calls h name f t v tol,
+    cattached h name f t v tol -> cattached (hrunc pos h calls) name f t v tol.
+  Proof.
+    induction calls as [|c r IH]; intros h name f t v tol Ha; [exact Ha|]. simpl. apply IH. apply cattached_hcall. exact Ha.
+  Qed.
+
+  Lemma first_match_spec f t tol : forall froms tos k c,
+    first_match f t froms tos tol k = Some c ->
+    k <= c /\ exists f' t', nth_error froms (c - k) = Some f' /\ nth_error tos (c - k) = Some t' /\ ft_close f t f' t' tol = true.
+  Proof.
+    induction froms as [|f' rf IH]; intros [|t' rt] k c H; simpl in H; try discriminate.
+    destruct (ft_close f t f' t' tol) eqn:E.
+    - inversion H; subst c. split; [lia|]. rewrite Nat.sub_diag. exists f', t'. repeat split; assumption.
+    - destruct (IH rt (S k) c H) as [Hk [f2 [t2 [H1 [H2 H3]]]]]. split; [lia|].
+      exists f2, t2. replace (c - k) with (S (c - S k)) by lia. repeat split; assumption.
+  Qed.
+
+  Lemma cell_map_spec froms tos fts tol c j : In (c, j) (cell_map_of froms tos fts tol) ->
+    exists f t f' t', nth_error fts j = Some (f, t) /\ nth_error froms c = Some f' /\ nth_error tos c = Some t'
+      /\ ft_close f t f' t' tol = true.
+  Proof.
+    unfold cell_map_of. intros H. apply in_flat_map in H. destruct H as [[i [f t]] [Hin Hm]].
+    apply in_combine_seq in Hin. destruct Hin as [_ Hn]. rewrite Nat.sub_0_r in Hn.
+    destruct (first_match f t froms tos tol 0) as [c'|] eqn:E; [|contradiction].
+    destruct Hm as [Em|[]]. inversion Em; subst c' i.
+    destruct (first_match_spec f t tol froms tos 0 c E) as [_ [f' [t' [H1 [H2 H3]]]]]. rewrite Nat.sub_0_r in H1, H2.
+    exists f, t, f', t'. repeat split; assumption.
+  Qed.
+
+  Lemma ft_close_self f t tol : (0 < tol)%Q -> ft_close f t f t tol = true.
+  Proof.
+    intros H. unfold ft_close. apply Qltb_lt.
+    setoid_replace ((f - f) * (f - f) + (t - t) * (t - t))%Q with 0%Q by ring.
+    apply Qmult_lt_0_compat; exact H.
+  Qed.
+
+  Definition no_collision_c (h : hole) (fts : list (Q * Q)) (tol : Q) : Prop :=
+    match h_ft h with None => True | Some (froms, tos) => NoDup (map fst (cell_map_of froms tos fts tol)) end.
+
+  (* one validate_interval_data call attaches every value to a cell within tol of its interval, provided no two entries of
+     the data set collocate with the same existing cell *)
+  Lemma add_interval_attached h name fts values tol j f t v :
+    cells_join h -> length values = length fts -> (0 < tol)%Q -> no_collision_c h fts tol ->
+    nth_error fts j = Some (f, t) -> nth_error values j = Some (Some v) ->
+    cattached (add_interval pos h name fts values tol) name f t v tol.
+  Proof.
+    intros Hc Hlen Htol Hnc Hft Hv. unfold add_interval, no_collision_c, cells_join in *.
+    destruct (h_ft h) as [[froms tos]|] eqn:Eft.
+    - destruct Hc as [Lf [Lt _]].
+      set (m := cell_map_of froms tos fts tol) in *.
+      destruct (mapped m j) eqn:Em.
+      + destruct (mapped_true_In m j Em) as [c Hin].
+        destruct (cell_map_spec froms tos fts tol c j Hin) as [f0 [t0 [f' [t' [Hj [Hf' [Ht' Hcl]]]]]]].
+        rewrite Hft in Hj. inversion Hj; subst f0 t0.
+        assert (Hcn : c < length (h_cells h)) by (rewrite <- Lf; apply nth_error_Some; congruence).
+        exists c. eexists. eexists. eexists. exists f', t'. simpl. split; [reflexivity|].
+        split; [apply nth_error_app_keep; exact Hf'|]. split; [apply nth_error_app_keep; exact Ht'|]. split; [exact Hcl|].
+        split; [apply in_or_app; right; left; reflexivity|].
+        apply onth_app_some.
+        assert (Hc' : c < length (repeat (@None Q) (length (h_cells h)))) by (rewrite repeat_length; exact Hcn).
+        pose proof (assign_unique m (repeat (@None Q) (length (h_cells h))) values c j (Some v) Hnc Hin Hv Hc') as E.
+        unfold onth, oq in *. rewrite E. reflexivity.
+      + destruct (unmatched_aligned m fts values j (f, t) (Some v) (eq_sym Hlen) Em Hft Hv) as [p [P1 P2]].
+        exists (length (h_cells h) + p). eexists. eexists. eexists. exists f, t. simpl. split; [reflexivity|].
+        split; [|split; [|split; [apply ft_close_self; exact Htol|split; [apply in_or_app; right; left; reflexivity|]]]].
+        * rewrite nth_error_app2 by lia. rewrite Lf. replace (length (h_cells h) + p - length (h_cells h)) with p by lia.
+          apply (map_nth_error fst p _ P1).
+        * rewrite nth_error_app2 by lia. rewrite Lt. replace (length (h_cells h) + p - length (h_cells h)) with p by lia.
+          apply (map_nth_error snd p _ P1).
+        * unfold onth. rewrite nth_error_app2 by (rewrite assign_length, repeat_length; lia).
+          rewrite assign_length, repeat_length. replace (length (h_cells h) + p - length (h_cells h)) with p by lia.
+          unfold oq in *. rewrite P2. reflexivity.
+    - exists j. eexists. eexists. eexists. exists f, t. simpl. split; [reflexivity|].
+      split; [apply (map_nth_error fst j _ Hft)|]. split; [apply (map_nth_error snd j _ Hft)|].
+      split; [apply ft_close_self; exact Htol|]. split; [apply in_or_app; right; left; reflexivity|].
+      unfold onth, oq in *. rewrite Hv. reflexivity.
+  Qed.
+
+  (* for histories of add_data calls: the values of a from-to data set none of whose entries collide are attached after
+     its call and after every later call *)
+  Lemma interval_values_stay_attached_calls calls pre post name fts values tol j f t v later :
+    Forall (Forall op_ok) calls -> Forall op_ok pre ->
+    length values = length fts -> (0 < tol)%Q ->
+    no_collision_c (fold_left (happly pos) pre (hrunc pos empty_hole calls)) fts tol ->
+    nth_error fts j = Some (f, t) -> nth_error values j = Some (Some v) ->
+    cattached (hrunc pos (hcall pos (hrunc pos empty_hole calls) (pre ++ AddInterval name fts values tol :: post)) later)
+              name f t v tol.
+  Proof.
+    intros Hc Hpre Hlen Htol Hnc Hft Hv.
+    assert (Hinv : inv (hrunc pos empty_hole calls)) by (apply hrunc_inv; [apply inv_empty|exact Hc]).
+    apply cattached_hrunc. unfold hcall. apply cattached_sort. rewrite fold_left_app. simpl. apply cattached_fold.
+    apply add_interval_attached with (j := j); try assumption.
+    destruct (happly_fold_inv pre _ (inv_inv_weak _ Hinv) Hpre) as [_ [Hj _]]. exact Hj.
   Qed.
 End Proofs.
 
